@@ -97,7 +97,12 @@ def scenario(method, how, schedule):
             except AssertionError:
                 rec({'e': 'start_again', 'ret': 'refused'})
 
-    p.start()
+    try:
+        p.start()
+    except Exception as exc:      # noqa
+        # e.g. the bookkeeping of earlier children fails while this one is started
+        rec({'e': 'api_error', 'call': 'start', 'what': type(exc).__name__})
+        return obs
     r.close()
     sentinel = os.dup(p.sentinel)
     st['phase'] = 'running'
